@@ -28,7 +28,6 @@
 
 use crate::HttpRequest;
 use http::uri::{InvalidUri, Uri};
-use jsonrpsee_core::http_helpers;
 
 /// Represent the http URI scheme that is returned by the HTTP host header
 ///
@@ -99,20 +98,26 @@ impl Authority {
 	pub fn from_http_request<T>(request: &HttpRequest<T>) -> Option<Self> {
 		// NOTE: we use our own `Authority type` here because an invalid port number would return `None` here
 		// and that should be denied.
-		let host_header =
-			http_helpers::read_header_value(request.headers(), hyper::header::HOST).map(Authority::try_from);
-		let uri = request.uri().authority().map(|v| Authority::try_from(v.as_str()));
+		//
+		// A `Host` header that is repeated or can't be read is present but unusable, unlike a missing one.
+		let mut hosts = request.headers().get_all(hyper::header::HOST).iter();
+		let host_header = match (hosts.next(), hosts.next()) {
+			(None, _) => None,
+			(Some(host), None) => Some(host.to_str().ok().and_then(|host| Authority::try_from(host).ok())),
+			(Some(_), Some(_)) => Some(None),
+		};
+		let uri = request.uri().authority().map(|v| Authority::try_from(v.as_str()).ok());
 
+		// An authority that is present but unusable is never ignored in favour of the other one.
 		match (host_header, uri) {
-			(Some(Ok(a1)), Some(Ok(a2))) => {
+			(Some(Some(a1)), Some(Some(a2))) => {
 				if a1 == a2 {
 					Some(a1)
 				} else {
 					None
 				}
 			}
-			(Some(Ok(a)), _) => Some(a),
-			(_, Some(Ok(a))) => Some(a),
+			(Some(Some(a)), None) | (None, Some(Some(a))) => Some(a),
 			_ => None,
 		}
 	}
